@@ -259,6 +259,11 @@ func parseStackPCs(crash string) ([]uintptr, error) {
 		// The RELPC is sometimes missing.
 
 		if symLine {
+			// A traceback of more than 100 frames has its middle replaced
+			// by a single line "...N frames elided...".
+			if strings.HasPrefix(line, "...") && strings.HasSuffix(line, " frames elided...") {
+				continue
+			}
 			var err error
 			currSymbol, err = getSymbol(line)
 			if err != nil {
